@@ -5,7 +5,7 @@
    tie to the code is the correspondence run of ./check C07 (Corr/C07.v) and the regenerated
    stack order (Generated/Facts_stack.v, same literal list as C07_stack_names). *)
 Require Import Verif.Common.Base Verif.Common.Json.
-Require Import Verif.Model.C07 Verif.Spec.C07 Verif.Proof.C07 Verif.Proof.C07_oracle Verif.Proof.C07_bytes Verif.Proof.C07_codec.
+Require Import Verif.Model.C07 Verif.Spec.C07 Verif.Proof.C07 Verif.Proof.C07_oracle Verif.Proof.C07_bytes Verif.Proof.C07_codec Verif.Proof.C07_opts Verif.Proof.C07_rfc.
 
 (* ---- which configured values are '{param}' values, and the name they are bound by ---- *)
 
@@ -149,7 +149,83 @@ Theorem C07_codec_roundtrip_valid : forall l,
 Proof. exact codec_roundtrip_valid. Qed.
 Print Assumptions C07_codec_roundtrip_valid.
 
+(* ---- the escaper against the declarative reading of JSON strings (Spec: denotes, the
+   grammar of RFC 8259 section 7): what it writes for ANY byte string stands for the sanitized
+   string, for the string itself when it is valid UTF-8, and for nothing else ---- *)
+Theorem C07_escape_denotes : forall l, denotes (escape_bytes l) (sanitize_from l 0).
+Proof. exact escape_denotes. Qed.
+Print Assumptions C07_escape_denotes.
+
+Theorem C07_escape_denotes_valid : forall l, valid_from l 0 = true -> denotes (escape_bytes l) l.
+Proof. exact escape_denotes_valid. Qed.
+Print Assumptions C07_escape_denotes_valid.
+
+Theorem C07_denotes_unambiguous : forall t s1 s2, denotes t s1 -> denotes t s2 -> s1 = s2.
+Proof. exact denotes_fun. Qed.
+Print Assumptions C07_denotes_unambiguous.
+
+(* the decoder model accepts only what the grammar allows *)
+Theorem C07_decoder_sound : forall t s, unescape_bytes t = Some s -> denotes t s.
+Proof. exact unescape_sound. Qed.
+Print Assumptions C07_decoder_sound.
+
+(* ---- the body on bytes: its length is the model's own, not an input of the model ----
+   encode_body is json.Marshal of the operation (struct field order, omitempty, map keys in byte
+   order, the escaper above, number literals as carried); the CStackRaw cases compare it byte for
+   byte with what the executor read.  The Content-Length the backend is told, both as header and
+   as http.Request.ContentLength, is the length of exactly those bytes. *)
+Theorem C07_content_length_is_body_length : forall i g,
+  operation i = Some g -> o_method (opts_of i) = TPost ->
+  exists s, model_len i = Sent s /\
+    s_method s = "POST"%string /\ s_body s = Some (body_json g) /\
+    s_body_len s = body_length g /\ s_clen s = body_length g /\
+    s_clen_hdr s = [dec_Z (body_length g)] /\
+    model_body i = Some (bs (encode_body g)).
+Proof. exact content_length_is_body_length. Qed.
+Print Assumptions C07_content_length_is_body_length.
+
+Theorem C07_model_len_meets_oracle : forall i, wf_input i -> spec_b i (model_len i) = true.
+Proof. exact model_len_meets_oracle. Qed.
+Print Assumptions C07_model_len_meets_oracle.
+
+Theorem C07_model_len_meets_spec : forall i, wf_input i -> Spec i (model_len i).
+Proof. exact model_len_meets_spec. Qed.
+Print Assumptions C07_model_len_meets_spec.
+
+(* concurrent_calls > 1: each attempt sends what a single call sends (CStackN cases) *)
+Theorem C07_concurrent_stage_transparent : forall i len,
+  model_on (exec_stack true) i len = model_on (exec_stack false) i len.
+Proof. exact concurrent_stage_transparent. Qed.
+Print Assumptions C07_concurrent_stage_transparent.
+
+(* ---- which spellings of "type" and "method" select which behaviour (GetOptions) ---- *)
+Theorem C07_type_spelling : forall t,
+  (norm_type t = Some TQuery <-> lowered t = "query"%string) /\
+  (norm_type t = Some TMutation <-> lowered t = "mutation"%string) /\
+  (norm_type t = None <-> lowered t <> "query"%string /\ lowered t <> "mutation"%string).
+Proof. exact type_spelling. Qed.
+Print Assumptions C07_type_spelling.
+
+Theorem C07_method_spelling : forall m,
+  (norm_method m = TGet <-> uppered m = "GET"%string) /\
+  (norm_method m = TPost <-> uppered m <> "GET"%string).
+Proof. exact method_spelling. Qed.
+Print Assumptions C07_method_spelling.
+
 (* ---- non-vacuity ---- *)
+Example C07_ex_spelling :
+  norm_type "MuTaTiOn" = Some TMutation /\ norm_type "QUERY" = Some TQuery /\
+  norm_type "subscription" = None /\ norm_type "query " = None /\
+  norm_method "gEt" = TGet /\ norm_method "" = TPost /\ norm_method "put" = TPost.
+Proof. vm_compute. repeat split; reflexivity. Qed.
+
+Example C07_ex_body_bytes :
+  bs (encode_body {| g_query := "{ q }"; g_name := ""; g_vars := [("b", JNum "1.0"); ("a", JStr "<")] |})
+  = bs [123;34;113;117;101;114;121;34;58;34;123;32;113;32;125;34;44;34;118;97;114;105;97;98;108;101;115;34;58;
+        123;34;97;34;58;34;92;117;48;48;51;99;34;44;34;98;34;58;49;46;48;125;125]%N /\
+  body_length {| g_query := "{ q }"; g_name := ""; g_vars := [] |} = 17%Z.
+Proof. vm_compute. split; reflexivity. Qed.
+
 Example C07_ex_escape :
   escape_bytes [34; 10; 60; 255]%N = [92; 34; 92; 110; 92; 117; 48; 48; 51; 99; 92; 117; 102; 102; 102; 100]%N /\
   unescape_bytes (escape_bytes [34; 92; 10; 1; 60; 226; 128; 168; 255; 195; 169]%N) =
